@@ -204,6 +204,11 @@ impl Ctx {
         *self.st.excluded.entry(signature.to_string()).or_default() += 1;
     }
 
+    /// counts a case that could not be decided (budget); more than 1 % of them ⇒ exit 2
+    pub fn count_discarded(&mut self) {
+        self.st.discarded += 1;
+    }
+
     /// should this part run? (replay mode: only the part named in the replay file)
     pub fn part_enabled(&self, part: &str) -> bool {
         if let Some(r) = &self.replay {
@@ -374,7 +379,20 @@ impl Ctx {
             std::thread::sleep(Duration::from_millis(2));
         }
         unsafe { libc::close(fds[0]) };
+        let mut where_stuck = String::new();
         if timed_out {
+            // diagnostics: where does the case process stand?
+            let rd = |f: &str| std::fs::read_to_string(format!("/proc/{pid}/{f}")).unwrap_or_default();
+            where_stuck = format!("wchan={} stack=[{}]", rd("wchan").trim(), rd("stack").lines().take(6).map(|l| l.trim().to_string()).collect::<Vec<_>>().join(" < "));
+            if let Ok(kids) = std::fs::read_to_string(format!("/proc/{pid}/task/{pid}/children")) {
+                for k in kids.split_whitespace() {
+                    let st = std::fs::read_to_string(format!("/proc/{k}/stat")).unwrap_or_default();
+                    let state = st.rsplit(')').next().unwrap_or("").trim().chars().next().unwrap_or('?');
+                    let cmd = std::fs::read_to_string(format!("/proc/{k}/cmdline")).unwrap_or_default().replace('\0', " ");
+                    let wch = std::fs::read_to_string(format!("/proc/{k}/wchan")).unwrap_or_default();
+                    where_stuck.push_str(&format!(" child {k} state {state} wchan {wch} cmd [{}]", cmd.chars().take(120).collect::<String>()));
+                }
+            }
             unsafe {
                 // the child may be a ptrace tracer with children of its own: kill its whole group is
                 // not possible (same group as us), so kill the child; PTRACE_O_EXITKILL takes the rest
@@ -385,7 +403,7 @@ impl Ctx {
         unsafe { libc::waitpid(pid, &mut status, 0) };
         let mut obs = Obs::default();
         if timed_out {
-            return (obs, Err(Failure::new(hang_signature, format!("the case did not finish within {} s (normal duration is far below a second)", limit.as_secs()))));
+            return (obs, Err(Failure::new(hang_signature, format!("the case did not finish within {} s (normal duration is far below a second); {where_stuck}", limit.as_secs()))));
         }
         match serde_json::from_slice::<Value>(&buf) {
             Ok(j) => {
@@ -768,7 +786,9 @@ pub fn main(spec: Spec, body: fn(&mut Ctx)) -> ! {
         let child = c.spawn().expect("spawn worker");
         children.push((w, child, out));
     }
-    let limit = Duration::from_secs(if a.tier == Tier::Quick { spec.watchdog_quick_s } else { spec.watchdog_thorough_s });
+    let limit = Duration::from_secs(
+        std::env::var("VERIF_WATCHDOG_S").ok().and_then(|v| v.parse().ok()).unwrap_or(if a.tier == Tier::Quick { spec.watchdog_quick_s } else { spec.watchdog_thorough_s }),
+    );
     let mut merged = Stats::default();
     let mut crashed: Vec<(usize, String)> = vec![];
     let mut timed_out = false;
